@@ -75,8 +75,10 @@ pub unsafe trait RcObject: Sized {
 impl<T> Tagged<RcInner<T>> {
     fn with_timestamp(self) -> Self {
         if self.is_null() {
+            vpoint!(Link, 0usize);
             self
         } else {
+            vpoint!(EpochRead, 0usize);
             self.with_high_tag(global_epoch())
         }
     }
@@ -140,6 +142,7 @@ impl<T: RcObject> AtomicRc<T> {
     /// Panics if `order` is `Release` or `AcqRel`.
     #[inline]
     pub fn load<'g>(&self, order: Ordering, guard: &'g Guard) -> Snapshot<'g, T> {
+        vpoint!(Link, &self.link as *const _);
         Snapshot::from_raw(self.link.load(order), guard)
     }
 
@@ -151,6 +154,12 @@ impl<T: RcObject> AtomicRc<T> {
     pub fn store(&self, ptr: Rc<T>, order: Ordering, guard: &Guard) {
         let new_ptr = ptr.ptr;
         let old_ptr = self.link.swap(new_ptr.with_timestamp(), order);
+        vevent!(LinkWrite {
+            cell: &self.link as *const _ as usize,
+            old: old_ptr.verif_word(),
+            new: self.verif_word(),
+            weak: false
+        });
         // Skip decrementing a strong count of the inserted pointer.
         forget(ptr);
         unsafe {
@@ -170,6 +179,12 @@ impl<T: RcObject> AtomicRc<T> {
     pub fn swap(&self, new: Rc<T>, order: Ordering) -> Rc<T> {
         let new_ptr = new.into_raw();
         let old_ptr = self.link.swap(new_ptr.with_timestamp(), order);
+        vevent!(LinkWrite {
+            cell: &self.link as *const _ as usize,
+            old: old_ptr.verif_word(),
+            new: self.verif_word(),
+            weak: false
+        });
         Rc::from_raw(old_ptr)
     }
 
@@ -206,6 +221,12 @@ impl<T: RcObject> AtomicRc<T> {
                 .compare_exchange(expected_raw, desired_raw, success, failure)
             {
                 Ok(_) => {
+                    vevent!(LinkWrite {
+                        cell: &self.link as *const _ as usize,
+                        old: expected_raw.verif_word(),
+                        new: desired_raw.verif_word(),
+                        weak: false
+                    });
                     // Skip decrementing a strong count of the inserted pointer.
                     forget(desired);
                     let rc = Rc::from_raw(expected_raw);
@@ -214,6 +235,7 @@ impl<T: RcObject> AtomicRc<T> {
                 Err(current_raw) => {
                     if current_raw.ptr_eq(expected_raw) {
                         expected_raw = current_raw;
+                        vpoint!(Link, &self.link as *const _);
                     } else {
                         let current = Snapshot::from_raw(current_raw, guard);
                         return Err(CompareExchangeError { desired, current });
@@ -258,6 +280,12 @@ impl<T: RcObject> AtomicRc<T> {
                 .compare_exchange_weak(expected_raw, desired_raw, success, failure)
             {
                 Ok(_) => {
+                    vevent!(LinkWrite {
+                        cell: &self.link as *const _ as usize,
+                        old: expected_raw.verif_word(),
+                        new: desired_raw.verif_word(),
+                        weak: false
+                    });
                     // Skip decrementing a strong count of the inserted pointer.
                     forget(desired);
                     let rc = Rc::from_raw(expected_raw);
@@ -266,6 +294,7 @@ impl<T: RcObject> AtomicRc<T> {
                 Err(current_raw) => {
                     if current_raw.ptr_eq(expected_raw) {
                         expected_raw = current_raw;
+                        vpoint!(Link, &self.link as *const _);
                     } else {
                         let current = Snapshot::from_raw(current_raw, guard);
                         return Err(CompareExchangeError { desired, current });
@@ -314,10 +343,22 @@ impl<T: RcObject> AtomicRc<T> {
                 .link
                 .compare_exchange(expected_raw, desired_raw, success, failure)
             {
+                #[cfg(feature = "circ_verif")]
+                Ok(current_raw) => {
+                    vevent!(LinkWrite {
+                        cell: &self.link as *const _ as usize,
+                        old: current_raw.verif_word(),
+                        new: desired_raw.verif_word(),
+                        weak: false
+                    });
+                    return Ok(Snapshot::from_raw(current_raw, guard));
+                }
+                #[cfg(not(feature = "circ_verif"))]
                 Ok(current_raw) => return Ok(Snapshot::from_raw(current_raw, guard)),
                 Err(current_raw) => {
                     if current_raw.ptr_eq(expected_raw) {
                         expected_raw = current_raw;
+                        vpoint!(Link, &self.link as *const _);
                     } else {
                         return Err(CompareExchangeError {
                             desired: Snapshot::from_raw(desired_raw, guard),
@@ -349,6 +390,12 @@ impl<T: RcObject> AtomicRc<T> {
     /// Takes an underlying [`Rc`] from this [`AtomicRc`], leaving a null pointer.
     #[inline]
     pub fn take(&mut self) -> Rc<T> {
+        vevent!(LinkWrite {
+            cell: &self.link as *const _ as usize,
+            old: self.verif_word(),
+            new: 0,
+            weak: false
+        });
         Rc::from_raw(core::mem::take(self.link.get_mut()))
     }
 }
@@ -370,6 +417,11 @@ impl<T: RcObject> Rc<T> {
 impl<T: RcObject> Drop for AtomicRc<T> {
     #[inline(always)]
     fn drop(&mut self) {
+        vevent!(CellDrop {
+            cell: &self.link as *const _ as usize,
+            word: self.verif_word(),
+            weak: false
+        });
         let ptr = (*self.link.get_mut()).as_raw();
         unsafe {
             if let Some(cnt) = ptr.as_mut() {
@@ -471,6 +523,10 @@ impl<T: RcObject> Rc<T> {
     #[inline(always)]
     pub fn new(obj: T) -> Self {
         let ptr = RcInner::alloc(obj, 1);
+        vevent!(Alloc {
+            obj: ptr as usize,
+            strong: 1
+        });
         Self {
             ptr: Raw::from(ptr),
             _marker: PhantomData,
@@ -486,6 +542,10 @@ impl<T: RcObject> Rc<T> {
     #[inline(always)]
     pub fn new_many<const N: usize>(obj: T) -> [Self; N] {
         let ptr = RcInner::alloc(obj, N as _);
+        vevent!(Alloc {
+            obj: ptr as usize,
+            strong: N as u32
+        });
         [(); N].map(|_| Self {
             ptr: Raw::from(ptr),
             _marker: PhantomData,
@@ -501,6 +561,10 @@ impl<T: RcObject> Rc<T> {
     #[inline(always)]
     pub fn new_many_iter(obj: T, count: usize) -> NewRcIter<T> {
         let ptr = RcInner::alloc(obj, count as _);
+        vevent!(Alloc {
+            obj: ptr as usize,
+            strong: count as u32
+        });
         NewRcIter {
             remain: count,
             ptr: Raw::from(ptr),
